@@ -170,6 +170,53 @@ def freeze_family(ld, r, count):
     return fails
 
 
+def _mark(ex):
+    ex['tags'].append('seen')          # a map function may modify the example it is given: every fetch hands out a fresh one
+    return ex
+
+
+def mutating_family(ld, r, count):
+    """sources of every immutability mode under a map function that modifies its argument in place: epoch after epoch and
+    index fetch after index fetch the profiled pipeline delivers what the plain pipeline delivers"""
+    fails = []
+    with warnings.catch_warnings():
+        warnings.simplefilter('ignore')
+        for _ in range(count):
+            n = r.randint(1, 5)
+            mode = r.choice(['pickle', 'wu', 'wu', 'dictpickle'])
+
+            def build():
+                exs = [{'i': i, 'tags': []} for i in range(n)]
+                if mode == 'dictpickle':
+                    d = ld.new({f'k{i}': e for i, e in enumerate(exs)})
+                elif mode == 'wu':
+                    d = ld.core.from_list(exs, 'wu')
+                else:
+                    d = ld.new(exs, immutable_warranty=mode)
+                d = d.map(_mark)
+                if r0 < 0.3: d = d.prefetch(1, 2)
+                elif r0 < 0.5: d = d[::-1]
+                return d
+            r0 = r.random()
+            plain, target = build(), build()
+            prof = ld.core.ProfilingDataset(target)
+            for epoch in range(3):
+                a = [repr(x) for x in plain]
+                b = [repr(x) for x in prof]
+                if a != b:
+                    fails.append(f'profiling changes the examples of a {mode} source under an in-place modifying map function in epoch {epoch + 1}: {b} vs plain {a}')
+                    break
+            else:
+                if plain.indexable:
+                    for _k in range(2):
+                        i = r.randrange(n)
+                        a, b = repr(plain[i]), repr(prof[i])
+                        if a != b:
+                            fails.append(f'profiling changes ds[{i}] of a {mode} source under an in-place modifying map function on a repeated fetch: {b} vs plain {a}')
+                            break
+    return fails
+
+
 def _inc(x): return x + 1
 def _odd(x): return x % 2 == 1
 def _ap_map(d): return d.map(_inc)
@@ -181,7 +228,7 @@ def run(tier):
     big = tier != 'quick'
     res = model_b.run_b('C20', tier, want_prof=True)
     r = common.rng_for('C20-direct')
-    for msg in transparency(ld, r, 1500 if big else 250) + raising(ld, r, 200 if big else 30) + freeze_family(ld, r, 1500 if big else 200):
+    for msg in transparency(ld, r, 1500 if big else 250) + raising(ld, r, 200 if big else 30) + freeze_family(ld, r, 1500 if big else 200) + mutating_family(ld, r, 600 if big else 80):
         res['failures'].append(dict(kind='program', summary=msg[:900], config={}))
     res['coverage']['transparency_programs'] = 1500 if big else 250
     res['coverage']['raising_cases'] = 200 if big else 30
